@@ -601,6 +601,139 @@ func recvAfterGrant(p *peerkit.E4Peer) ([]byte, bool, string) {
 }
 
 
+// ---------------------------------------------------------------- C17: a violation notice must not wedge the line engine
+type s1Wedge struct {
+	T            string `json:"t"` // "e4wedge"
+	Violation    string `json:"violation"`
+	Queued       int    `json:"queued_async_sends"`
+	BlocksBefore int    `json:"blocks_before_violation"`
+	BlocksAfter  int    `json:"blocks_after_violation"` // blocks the library put on the line after the malformed block (progress)
+	Notices      int    `json:"notices"`
+	ProbeResult  string `json:"probe_send_result"` // a synchronous send issued after the violation: "nil" | error | "hung"
+	State        string `json:"state"`
+	Alive        bool   `json:"alive"`
+	Fault        string `json:"fault"`
+}
+
+func s1WedgeScenario(violation string) *s1Wedge {
+	line := &s1Wedge{T: "e4wedge", Violation: violation, Queued: 150}
+	ses, err := newS1Session(true, true, 0x0021, 3) // the library is the equipment: it owes S9 notices
+	if err != nil {
+		line.Fault = err.Error()
+		return line
+	}
+	defer ses.close()
+	// the application floods fire-and-forget sends (the async queue fills and its producers block)
+	stop := make(chan struct{})
+	var wg sync.WaitGroup
+	for g := 0; g < 3; g++ {
+		wg.Add(1)
+		go func() {
+			defer wg.Done()
+			for i := 0; i < line.Queued/3; i++ {
+				select {
+				case <-stop:
+					return
+				default:
+				}
+				ctx, cancel := context.WithTimeout(context.Background(), 6*time.Second)
+				_ = ses.cut.Conn.SendDataMessageAsync(ctx, 6, 11, false, secs2.A("flood"))
+				cancel()
+			}
+		}()
+	}
+	defer func() { close(stop); ses.raw.Close(); wg.Wait() }()
+	bad := func() []byte {
+		switch violation {
+		case "wrong-device":
+			return peerkit.E4Block(0x0022, false, 1, 1, false, 1, true, 0xABC, []byte{1})
+		case "skipped-block":
+			return peerkit.E4Block(0x0021, false, 1, 1, false, 5, true, 0xABD, []byte{1})
+		}
+		return peerkit.E4Block(0x0021, false, 1, 1, false, 1, true, 0xABE, []byte{1}) // "none": a well-formed message (control)
+	}()
+	// serve the library's blocks; after a few of them put the malformed block on the line right behind an ACK
+	sentBad := false
+	deadline := time.Now().Add(5 * time.Second)
+	quiet := 0
+	for time.Now().Before(deadline) {
+		raw, good, what := ses.peer.RecvBlock(400*time.Millisecond, peerkit.RecvOpts{})
+		if what == "idle" {
+			quiet++
+			if sentBad && quiet >= 3 {
+				break
+			}
+			continue
+		}
+		if what == "io" {
+			break
+		}
+		quiet = 0
+		if what == "block" && good && len(raw) > 5 {
+			if raw[3]&0x7f == 9 {
+				line.Notices++
+			} else if sentBad {
+				line.BlocksAfter++
+			} else {
+				line.BlocksBefore++
+			}
+		}
+		if !sentBad && line.BlocksBefore >= 5 {
+			sentBad = true
+			for try := 0; try < 6; try++ { // as the slave the peer may lose the line to the master: ask again
+				if res := ses.peer.SendBlock(bad, peerkit.SendOpts{}); res == "ack" {
+					break
+				}
+			}
+			for _, y := range ses.peer.TakeYielded() {
+				if len(y.Raw) > 5 && y.Good {
+					if y.Raw[3]&0x7f == 9 {
+						line.Notices++
+					} else {
+						line.BlocksAfter++
+					}
+				}
+			}
+		}
+		if line.BlocksAfter >= 20 {
+			break
+		}
+	}
+	if !sentBad {
+		line.Fault = "the malformed block was never sent"
+		return line
+	}
+	// a synchronous send after the violation must still get through
+	probe := make(chan error, 1)
+	go func() {
+		ctx, cancel := context.WithTimeout(context.Background(), 8*time.Second)
+		defer cancel()
+		_, err := ses.cut.Conn.SendDataMessage(ctx, 6, 13, false, secs2.A("probe"))
+		probe <- err
+	}()
+	end := time.Now().Add(9 * time.Second)
+	for time.Now().Before(end) {
+		select {
+		case err := <-probe:
+			line.ProbeResult = "nil"
+			if err != nil {
+				line.ProbeResult = err.Error()
+			}
+			end = time.Now()
+		default:
+			if _, _, what := ses.peer.RecvBlock(100*time.Millisecond, peerkit.RecvOpts{}); what == "block" {
+				line.BlocksAfter++
+			}
+		}
+	}
+	if line.ProbeResult == "" {
+		line.ProbeResult = "hung"
+	}
+	line.State = ses.cut.State()
+	line.Alive = !ses.peer.IsClosedByRemote(10 * time.Millisecond)
+	return line
+}
+
 // ---------------------------------------------------------------- C09 on SECS-I: nothing crosses generations
 type s1GenSend struct {
 	Name      string `json:"name"`
@@ -671,7 +804,7 @@ func s1GenScenario(passive, equip bool, mode string) *s1Gen {
 			rets <- ret{i, time.Now(), err}
 		}()
 	}
-	if mode == "handler-busy" {
+	if mode == "handler-busy" || mode == "handler-busy-close" {
 		// the line engine is inside an inbound handler when a send reaches the transport and the generation ends
 		cut.OnData = func(msg *hsms.DataMessage, _ hsms.SECS2Endpoint) {
 			if msg.Function() == 99 {
@@ -695,7 +828,13 @@ func s1GenScenario(passive, equip bool, mode string) *s1Gen {
 		return line
 	}
 	dropAt := time.Now()
-	ses.raw.Close()
+	if mode == "handler-busy-close" {
+		// the generation is ended by the APPLICATION while the engine is still inside the handler: after the handler
+		// returns the engine sees the teardown first and never takes the parked hand-off
+		go func() { _ = ses.cut.Conn.Close() }()
+	} else {
+		ses.raw.Close()
+	}
 	deadline := time.After(2500 * time.Millisecond)
 	pending := 0
 	for _, sd := range line.Sends {
@@ -715,6 +854,14 @@ func s1GenScenario(passive, equip bool, mode string) *s1Gen {
 			got++
 		case <-deadline:
 			got = pending
+		}
+	}
+	if mode == "handler-busy-close" {
+		time.Sleep(400 * time.Millisecond) // let Close finish
+		ses.raw.Close()
+		if err := ses.cut.Open(); err != nil {
+			line.Fault = "re-open: " + err.Error()
+			return line
 		}
 	}
 	return s1GenFinish(ses, line, t0)
@@ -1015,12 +1162,17 @@ func runS1(args []string) int {
 			w.Emit(c.trace)
 		}
 	}
+	if has("wedge") {
+		for _, v := range []string{"none", "wrong-device", "skipped-block"} {
+			w.Emit(s1WedgeScenario(v))
+		}
+	}
 	if has("gen") {
 		for _, cb := range [][2]bool{{false, false}, {true, true}, {false, true}, {true, false}} {
 			wg.Add(1)
 			go func(passive, equip bool) {
 				defer wg.Done()
-				for _, mode := range []string{"peer-close", "handler-busy"} {
+				for _, mode := range []string{"peer-close", "handler-busy", "handler-busy-close"} {
 					line := s1GenScenario(passive, equip, mode)
 					mu.Lock()
 					w.Emit(line)
